@@ -176,6 +176,38 @@ def trace_interp(ctx, tag, n, mode="mixed", chunks=8, cases_file=None):
     return summ
 
 
+def negative_controls_C01(ctx, recs):
+    """Demonstrate the binding (DESIGN 4.4): a corrupted trace must be rejected at the corrupted
+    event, and a case file with one expected value changed must make the replay report it.
+    A control that does not fire is a tool error (exit 2), never a pass."""
+    # (a) trace: flip one bit of one register in one step event of the first recorded chunk
+    src = os.path.join(ctx.workdir, "structured.trace.0.ndjson")
+    lines = open(src).read().splitlines()
+    idx = [i for i, ln in enumerate(lines) if '"e":"step"' in ln]
+    k = idx[len(idx) // 2]
+    ev = json.loads(lines[k])
+    ev["regs"][10][0] ^= 1
+    bad = lines[:k] + [json.dumps(ev)] + lines[k + 1:]
+    path = os.path.join(ctx.workdir, "negctl.trace.ndjson")
+    open(path, "w").write("\n".join(bad) + "\n")
+    devs = sorted({f["key"] for f in core.load_known()["findings"] if "interpreter" in f["where"]})
+    r, (verdict, a, b) = validate_trace(ctx, f"{ctx.prop}-negctl", path, devs)
+    if not (verdict == "rejected" and a == k + 1):
+        raise ToolError(f"negative control failed: corrupted event {k + 1} -> {verdict} at {a}")
+    # (b) replay: change one expected value
+    ok_recs = [x for x in recs if x["exp"]["k"] == "ok" and x["exp"]["defd"] and not x["case"]["dev"]][:20]
+    mutated = json.loads(json.dumps(ok_recs))
+    mutated[7]["exp"]["val"][0] ^= 1
+    cpath = os.path.join(ctx.workdir, "negctl.cases.ndjson")
+    open(cpath, "w").write("\n".join(json.dumps(x) for x in mutated) + "\n")
+    rpath = os.path.join(ctx.workdir, "negctl.report.json")
+    rv(["replay", "--cases", cpath, "--engines", "interp", "--report", rpath])
+    if json.load(open(rpath))["fail"] != 1:
+        raise ToolError("negative control failed: a changed expected value was not reported by the replay")
+    ctx.extra["negative_controls"] = ["a step event with one flipped register bit is rejected by TraceInterp at exactly that event",
+                                      "a case with one changed expected byte is reported by rv replay"]
+
+
 def small_width_models(ctx, which=("word", "alu")):
     """Exhaustive agreement of the limb arithmetic / ALU semantics with mathematics at 8 bits."""
     for name, module, cfgs in (("word", "MC_WordSmall", ((2, 4),) if ctx.quick else ((2, 4), (4, 2), (2, 3))),
@@ -202,6 +234,11 @@ def run_C01(ctx):
     replay_exec(ctx, "isa", recs, ["interp"])
     # direction A: random terminating programs, every step validated
     trace_interp(ctx, "structured", 150 if ctx.quick else 4000, mode="structured")
+    negative_controls_C01(ctx, recs)
+    ops = {sg[1][0] for r_ in recs for sg in r_["case"]["prog"]}
+    ctx.extra["distinct_opcodes_in_cases"] = len(ops)
+    if not ctx.quick and len(ops) < 100:
+        raise ToolError(f"vacuity: only {len(ops)} distinct opcodes in the enumerated cases")
 
 
 def run_C03(ctx):
